@@ -252,7 +252,8 @@ def _mem_config(e, tag, cfg):
     e.memory.external_memory = ArrBuf("ext" + tag, 1024 * 1024)
     if "card" in cfg:
         e.memory.load_memory_card(bytes(16), 8192)
-        e.memory._card_data = ArrBuf("card" + tag, 8192)
+    # the card slot (power-on default: a 64 KiB card; "card" configurations: an 8 KiB one) holds arbitrary bytes
+    e.memory._card_data = ArrBuf("card" + tag, len(e.memory._card_data))
     if "rom" in cfg:
         e.load_rom(ArrBuf("rom" + tag, 0x40000))
     if "xram" in cfg:
@@ -293,8 +294,13 @@ def unit_memory(unit):
             # overlay serves every access there) -- except the last 256 bytes, which hold the internal RAM
             # and are reached through internal addresses, not through the bus overlays
             for ov in a.memory.overlays:
-                if ov.data is not None and ov.start < 0x100000:
+                if ov.start >= 0x100000:
+                    continue
+                if ov.data is not None:
                     eng.assume(z3.Or(T(i) < ov.start, T(i) >= min(ov.start + len(ov.data), ov.end + 1), T(i) >= 0xFFF00))
+                else:
+                    # handler windows (LCD, card slot): every access is served by the handler, never by the image
+                    eng.assume(z3.Or(T(i) < ov.start, T(i) > ov.end))
             common.prove_with_known(eng, "restore:memory:external-image", T(b.memory.external_memory[i]) == T(a.memory.external_memory[i]),
                                     "every byte of the 1 MiB image (internal RAM is its last 256 bytes) is the original's", known)
             names_a = [(ov.name, ov) for ov in a.memory.overlays if ov.data is not None]
@@ -308,7 +314,7 @@ def unit_memory(unit):
                 eng.assume(T(j) < len(ova.data))
                 common.prove_with_known(eng, f"restore:memory:overlay:{name}", T(ovb.data[j]) == T(ova.data[j]),
                                         f"every byte of the payload of overlay {name}", known)
-            if "card" in cfg:
+            if a.memory._card_present:
                 c = eng.fresh("c", 16)
                 eng.assume(T(c) < len(a.memory._card_data))
                 common.prove_with_known(eng, "restore:memory:card", T(b.memory._card_data[c]) == T(a.memory._card_data[c]),
